@@ -1,5 +1,8 @@
 import Octo.Proofs.SsTcpGen
+import Octo.Proofs.SsTcpGenEih
 import Octo.Proofs.Toy
+import Octo.Proofs.Ss2022Stream
+import Octo.Props.C10
 /-!
   C04 / C07 / C10 for the code GENERATED from `octo-squirrel/src/codec/shadowsocks/tcp.rs` by `bin/translate_sstcp.py`
   (`Octo/Gen/SsTcpGen.lean`): the statements of `Octo/Props/C04Ss2022.lean`, `C07.lean`, `C10.lean` about the hand model's
@@ -141,6 +144,15 @@ theorem c10_sstcp_replayed_salt_refused (ov : Bool) (E : MEnv) (k : Ss.Kind) (N 
   · have := congrArg Ss.Dec.chunk h1'
     simpa using this
 
+/-- a context whose cache still holds the salt `7,7,..` -/
+def demoCtxSeen : Context MT := { demoCtx with nonce_cache := [⟨List.replicate 16 7, 1000000⟩] }
+
+example : ∃ out, AEADCipherCodec.decode true (XM demoE) 16 demoSelf demoCtxSeen demoSess (List.replicate 50 7) = PWGen.Res.ok out ∧
+    out.2.2.2.2 = RResult.err ∧ out.2.2.2.1 = List.replicate 50 7 ∧ out.1.decoder = none :=
+  c10_sstcp_replayed_salt_refused true demoE .b3aes128 16 demoSelf demoCtxSeen demoSess _
+    ⟨rfl, rfl, rfl, rfl, rfl, rfl, rfl, by decide, by decide, fun a key n ad c p hp => Crypto.toy_lawful.open_len a key n ad c p hp⟩
+    (by decide) (by decide)
+
 /-- **C10 (acceptance only as the model accepts)**: whenever the generated `decode` hands out bytes on a first call, the
 model's `init2022` accepted (`take`) — so `c10_ss2022_accept_conditions` (expected stream type, timestamp within the window
 read from the source, echoed salt) and `c10_no_replay` apply to the code. -/
@@ -170,6 +182,23 @@ theorem c10_sstcp_accepts_only_as_model (ov : Bool) (E : MEnv) (k : Ss.Kind) (N 
       simp only [stepView, Prod.mk.injEq] at hview hs ⊢
       exact ⟨d, n, ⟨rfl, rfl, by rw [← hview.2.2]⟩, hs⟩
 
+/-- the model accepts the request `Demo22.wire` of `Octo/Proofs/Ss2022Stream.lean` (toy crypto) -/
+theorem demo_wire_ok : (Ss.cipherDecode demoE.C (toCtx .b3aes128 demoCtx) (envOf demoE demoCtx.nonce_cache)
+    ⟨none, toSess demoSess⟩ Ss.Demo22.wire).2.2.isOk = true := by decide +kernel
+
+example : ∃ out via, AEADCipherCodec.decode true (XM demoE) 16 demoSelf demoCtx demoSess Ss.Demo22.wire = PWGen.Res.ok out ∧
+    out.2.2.2.2 = RResult.ok (some via) := by
+  obtain ⟨out, h, ha⟩ := c04_sstcp_decode_is_model true demoE .b3aes128 16 demoSelf demoCtx demoSess Ss.Demo22.wire
+    (demo_first _ (by decide +kernel))
+  obtain ⟨hv, _, _, _⟩ := ha
+  have hk := demo_wire_ok
+  rw [← hv] at hk
+  cases hr : out.2.2.2.2 with
+  | err => rw [hr] at hk; simp [absRes, Res.isOk] at hk
+  | ok o =>
+    cases o with
+    | none => rw [hr] at hk; simp [absRes, Res.isOk] at hk
+    | some via => exact ⟨out, via, h, hr⟩
 /-- **the window constant**: the timestamp tolerance in the generated `validate_timestamp` is the constant read from
 `aead_2022.rs` and equals the one `bin/extract_consts.py` reads for the model (`c10_ttl_covers_window` is about it) -/
 theorem c10_sstcp_window_constant : SERVER_STREAM_TIMESTAMP_MAX_DIFF.toNat = Consts.ssMaxTimeDiff := window_eq
@@ -207,5 +236,185 @@ theorem c07_sstcp_later_call (ov : Bool) {T : ExtTypes} (X : Ext T) (N : Usize) 
 example : AEADCipherCodec.decode true (XM demoE) 16 ⟨none, some ⟨Ss.Auth.new .aes128gcm [], .Length⟩⟩ demoCtx demoSess [1] =
     PWGen.Res.ok (⟨none, some ⟨Ss.Auth.new .aes128gcm [], .Length⟩⟩, demoCtx, demoSess, [1], RResult.ok none) :=
   c07_sstcp_later_call true (XM demoE) 16 _ demoCtx demoSess [1] ⟨Ss.Auth.new .aes128gcm [], .Length⟩ ⟨Ss.Auth.new .aes128gcm [], .Length⟩ [1] [] (.ok ()) rfl (by decide) rfl
+
+
+/-! ## client mode (the response) -/
+
+/-- the common hypotheses of the client-side first-call theorems -/
+structure FirstCallClient (E : MEnv) (k : Ss.Kind) (N : Usize) (codec : AEADCipherCodec MT) (context : Context MT)
+    (session : Session) (src : List UInt8) : Prop where
+  hk : toKind context.kind = some k
+  h22 : k.is2022 = true
+  hN : N.toNat = k.n
+  hsalt : session.identity.salt.length = N.toNat
+  hm : session.mode = .Client
+  hself : codec.decoder = none
+  hb : src.length < 2 ^ 64
+  hnow : E.now < 2 ^ 64
+  hopen : ∀ a key n ad c p, E.C.openB a key n ad c = some p → c.length = p.length + 16
+
+/-- the client session of `Demo22` (own salt `7,7,..`), as the generated `Session` -/
+def demoCliSess : Session := ⟨.Client, ⟨List.replicate 16 7, none, none⟩, none⟩
+theorem demo_first_client (src : List UInt8) (h : src.length < 2 ^ 64) :
+    FirstCallClient demoE .b3aes128 16 demoSelf demoCtx demoCliSess src :=
+  ⟨rfl, rfl, rfl, rfl, rfl, rfl, h, by decide, fun a key n ad c p hp => Crypto.toy_lawful.open_len a key n ad c p hp⟩
+
+/-- **C04/C07/C10 (generated code = model, client)**: the first `decode` call on a response — salt, replay check, fixed header,
+stream type `expect_u8`, timestamp, the echoed request salt compared with this connection's salt, variable header — returns
+(never panics) and agrees with the model's `cipherDecode`. -/
+theorem c04_sstcp_client_decode_is_model (ov : Bool) (E : MEnv) (k : Ss.Kind) (N : Usize) (self : AEADCipherCodec MT)
+    (context : Context MT) (session : Session) (src : List UInt8) (H : FirstCallClient E k N self context session src) :
+    ∃ out, AEADCipherCodec.decode ov (XM E) N self context session src = PWGen.Res.ok out ∧
+      AgreeCall E k self context session src out :=
+  decode_2022_client ov E k N self context session src H.hk H.h22 H.hN H.hsalt H.hm H.hself H.hb H.hnow H.hopen
+
+example : ∃ out, AEADCipherCodec.decode true (XM demoE) 16 demoSelf demoCtx demoCliSess Ss.Demo22.rwire = PWGen.Res.ok out ∧
+    AgreeCall demoE .b3aes128 demoSelf demoCtx demoCliSess Ss.Demo22.rwire out :=
+  c04_sstcp_client_decode_is_model true demoE .b3aes128 16 demoSelf demoCtx demoCliSess _ (demo_first_client _ (by decide +kernel))
+
+/-- **C07 (client)**: no response makes the first call panic -/
+theorem c07_sstcp_client_decode_never_panics (ov : Bool) (E : MEnv) (k : Ss.Kind) (N : Usize) (self : AEADCipherCodec MT)
+    (context : Context MT) (session : Session) (src : List UInt8) (H : FirstCallClient E k N self context session src) :
+    AEADCipherCodec.decode ov (XM E) N self context session src ≠ PWGen.Res.panic := by
+  obtain ⟨out, h, _⟩ := c04_sstcp_client_decode_is_model ov E k N self context session src H
+  rw [h]; intro x; cases x
+
+example : AEADCipherCodec.decode false (XM demoE) 16 demoSelf demoCtx demoCliSess [1, 2, 3] ≠ PWGen.Res.panic :=
+  c07_sstcp_client_decode_never_panics false demoE .b3aes128 16 demoSelf demoCtx demoCliSess _ (demo_first_client _ (by decide))
+
+/-- **C10 (what an accepted first flight satisfies, generated code, either mode)**: whenever a `decode` call that agrees with
+the model hands out bytes, the fixed header the model opened (`hh`) carries the expected stream type (`Mode::expect_u8`: 0 at a
+server, 1 at a client), a timestamp within the window of the clock, and — on a client — an echoed request salt equal to this
+connection's own salt. -/
+theorem c10_sstcp_accept_conditions (E : MEnv) (k : Ss.Kind) (self : AEADCipherCodec MT) (context : Context MT)
+    (session : Session) (src : List UInt8) (h22 : k.is2022 = true)
+    (out : AEADCipherCodec MT × Context MT × Session × Cursor × RResult (Option Cursor)) (via : Cursor)
+    (ha : AgreeCall E k self context session src out) (hv : out.2.2.2.2 = RResult.ok (some via)) :
+    ∃ hh : Bytes, hh.headD 0 = (toMode session.mode).expectU8 ∧
+      Ss.absDiff E.now (rdBE ((hh.drop 1).take 8)) ≤ Consts.ssMaxTimeDiff ∧
+      (session.mode = .Client → (hh.drop 9).take k.n = session.identity.salt) := by
+  obtain ⟨hview, _, _, _⟩ := ha
+  rw [hv] at hview
+  simp only [absRes] at hview
+  have hc := cipherDecode_2022 E.C (toCtx k context) (envOf E context.nonce_cache) (toSess session) src h22
+  by_cases he : src.isEmpty = true
+  · rw [hc, if_pos he] at hview; simp at hview
+  · rw [if_neg he] at hc
+    cases hst : Ss.init2022 E.C (toCtx k context) (envOf E context.nonce_cache) ⟨none, toSess session⟩ src with
+    | need => rw [hc, hst] at hview; simp [stepView] at hview
+    | fail d n => rw [hc, hst] at hview; simp [stepView] at hview
+    | take d n o =>
+      obtain ⟨dd, s1, hl, salt, a, hh, ht, hm1, hs1⟩ := init2022_take_tail _ _ _ _ _ _ _ _ hst
+      obtain ⟨c1, c2, c3⟩ := c10_ss2022_accept_conditions _ _ _ _ _ _ _ _ _ _ _ _ _ _ ht
+      refine ⟨hh, ?_, c2, ?_⟩
+      · rw [c1, hm1]; rfl
+      · intro hcl
+        have hmc : s1.mode = .client := by rw [hm1]; simp [toSess, hcl, toMode]
+        have := c3 hmc
+        rw [hs1] at this
+        simpa [toSess, hcl, toMode, toCtx] using this
+
+/-- on the client: a response is delivered only if it echoes this connection's salt and is fresh -/
+example : ∃ out via, AEADCipherCodec.decode true (XM demoE) 16 demoSelf demoCtx demoCliSess Ss.Demo22.rwire = PWGen.Res.ok out ∧
+    out.2.2.2.2 = RResult.ok (some via) := by
+  obtain ⟨out, h, ha⟩ := c04_sstcp_client_decode_is_model true demoE .b3aes128 16 demoSelf demoCtx demoCliSess Ss.Demo22.rwire
+    (demo_first_client _ (by decide +kernel))
+  obtain ⟨hv, _, _, _⟩ := ha
+  have hk : (Ss.cipherDecode demoE.C (toCtx .b3aes128 demoCtx) (envOf demoE demoCtx.nonce_cache)
+      ⟨none, toSess demoCliSess⟩ Ss.Demo22.rwire).2.2.isOk = true := by decide +kernel
+  rw [← hv] at hk
+  cases hr : out.2.2.2.2 with
+  | err => rw [hr] at hk; simp [absRes, Res.isOk] at hk
+  | ok o =>
+    cases o with
+    | none => rw [hr] at hk; simp [absRes, Res.isOk] at hk
+    | some via => exact ⟨out, via, h, hr⟩
+
+
+
+/-! ## server mode WITH identity header (registered users) -/
+
+/-- the common hypotheses of the identity-header first-call theorems: an AES 2022 cipher and a non-empty user table `m` -/
+structure FirstCallEih (E : MEnv) (k : Ss.Kind) (N : Usize) (codec : AEADCipherCodec MT) (context : Context MT)
+    (session : Session) (src : List UInt8) (m : List ServerUser) : Prop where
+  hk : toKind context.kind = some k
+  h22 : k.is2022 = true
+  hN : N.toNat = k.n
+  hsalt : session.identity.salt.length = N.toNat
+  hm : session.mode = .Server
+  hse : k.supportEih = true
+  hum : context.user_manager = some m
+  hm0 : 0 < m.length
+  hm64 : m.length < 2 ^ 64
+  hself : codec.decoder = none
+  hb : src.length < 2 ^ 64
+  hnow : E.now < 2 ^ 64
+  hopen : ∀ a key n ad c p, E.C.openB a key n ad c = some p → c.length = p.length + 16
+
+/-- the multi-user server of `Demo22` (identity key `2,2,..`, users "other" and "u") as the generated `Context` -/
+def demoUsers : List ServerUser :=
+  [⟨⟨[111]⟩, List.replicate 16 4, (Crypto.toy.blake3Hash (List.replicate 16 4)).take 16⟩,
+   ⟨⟨[117]⟩, List.replicate 16 3, (Crypto.toy.blake3Hash (List.replicate 16 3)).take 16⟩]
+def demoCtxEih : Context MT := ⟨List.replicate 16 2, [], .Aead2022Blake3Aes128Gcm, some demoUsers, []⟩
+theorem demo_first_eih (src : List UInt8) (h : src.length < 2 ^ 64) :
+    FirstCallEih demoE .b3aes128 16 demoSelf demoCtxEih demoSess src demoUsers :=
+  ⟨rfl, rfl, rfl, rfl, rfl, rfl, rfl, by decide, by decide, rfl, h, by decide,
+    fun a key n ad c p hp => Crypto.toy_lawful.open_len a key n ad c p hp⟩
+
+/-- **C04/C06/C07 (generated code = model, identity header)**: with registered users the first `decode` call requires the
+16-byte identity header, decrypts it under the identity subkey, looks the user up by the decrypted hash
+(`new_decoder_with_eih` = the model's `init2022Key` / `findUser`), opens the request under THAT user's key and records the
+user in the session — exactly as the model's `cipherDecode`; an unknown identity is `Err`. -/
+theorem c04_sstcp_eih_decode_is_model (ov : Bool) (E : MEnv) (k : Ss.Kind) (N : Usize) (self : AEADCipherCodec MT)
+    (context : Context MT) (session : Session) (src : List UInt8) (m : List ServerUser)
+    (H : FirstCallEih E k N self context session src m) :
+    ∃ out, AEADCipherCodec.decode ov (XM E) N self context session src = PWGen.Res.ok out ∧
+      AgreeCall E k self context session src out :=
+  decode_2022_server_eih ov E k N self context session src m H.hk H.h22 H.hN H.hsalt H.hm H.hse H.hum H.hm0 H.hm64 H.hself
+    H.hb H.hnow H.hopen
+
+example : ∃ out, AEADCipherCodec.decode true (XM demoE) 16 demoSelf demoCtxEih demoSess Ss.Demo22.ewire = PWGen.Res.ok out ∧
+    AgreeCall demoE .b3aes128 demoSelf demoCtxEih demoSess Ss.Demo22.ewire out :=
+  c04_sstcp_eih_decode_is_model true demoE .b3aes128 16 demoSelf demoCtxEih demoSess _ demoUsers (demo_first_eih _ (by decide +kernel))
+
+/-- **C06 (users stay separated, generated code)**: whenever such a call hands out bytes, the session's user afterwards is a
+registered user, namely the one the model's `findUser` selects for the decrypted identity header -/
+theorem c06_sstcp_eih_user (ov : Bool) (E : MEnv) (k : Ss.Kind) (N : Usize) (self : AEADCipherCodec MT)
+    (context : Context MT) (session : Session) (src : List UInt8) (m : List ServerUser)
+    (H : FirstCallEih E k N self context session src m)
+    (out : AEADCipherCodec MT × Context MT × Session × Cursor × RResult (Option Cursor)) (via : Cursor)
+    (h : AEADCipherCodec.decode ov (XM E) N self context session src = PWGen.Res.ok out)
+    (hv : out.2.2.2.2 = RResult.ok (some via)) :
+    ∃ (u : Ss.User) (hdr : Bytes), Ss.findUser (m.map toUser) (E.C.aesDec ((E.C.blake3Derive Ss.identitySubkeyCtx
+        (context.key ++ src.take k.n)).take k.alg.keyLen) (hdr.take 16)) = some u ∧
+      out.2.2.1.identity.user.map toUser = some u := by
+  obtain ⟨out', h', ha⟩ := c04_sstcp_eih_decode_is_model ov E k N self context session src m H
+  rw [h] at h'
+  cases h'
+  obtain ⟨hview, hsess, _, _⟩ := ha
+  have hs := hsess via hv
+  rw [hv] at hview
+  simp only [absRes] at hview
+  have hc := cipherDecode_2022 E.C (toCtx k context) (envOf E context.nonce_cache) (toSess session) src H.h22
+  have hmm : (toSess session).mode = .server := by simp [toSess, H.hm, toMode]
+  have hR : Ss.requireEih (toCtx k context) (toSess session) = true := by
+    simp only [Ss.requireEih, hmm, decide_true, Bool.true_and]
+    show (k.supportEih && decide (((context.user_manager.getD []).map toUser).length > 0)) = true
+    rw [List.length_map, H.hse, H.hum]; simpa using H.hm0
+  by_cases he : src.isEmpty = true
+  · rw [hc, if_pos he] at hview; simp at hview
+  · rw [if_neg he] at hc
+    cases hst : Ss.init2022 E.C (toCtx k context) (envOf E context.nonce_cache) ⟨none, toSess session⟩ src with
+    | need => rw [hc, hst] at hview; simp [stepView] at hview
+    | fail d n => rw [hc, hst] at hview; simp [stepView] at hview
+    | take d n o =>
+      obtain ⟨u, hdr, hu, hdu⟩ := init2022_take_user _ _ _ _ _ _ _ _ hR hst
+      rw [hc, hst] at hs
+      refine ⟨u, hdr, ?_, ?_⟩
+      · simpa [toCtx, H.hum] using hu
+      · have := congrArg Ss.Sess.user hs
+        simp only [stepView] at this
+        rw [hdu] at this
+        simpa [toSess] using this
 
 end Octo.SsTcpGen
